@@ -219,3 +219,31 @@ fn h_ck_ipv4_rejects_corruption() {
     vx_assume!(rfc1071_sum(&words10(&b)) != 0xffff);
     assert!(Ipv4Header::from_bytes(b.into_iter()).is_err());
 }
+
+//# id=fields.type_of_service_and_flags_bits fns=TypeOfService::new+precedence+delay+throughput+reliability+as_u8+ControlFlags::new+may_fragment+is_last_fragment+set_may_fragment+set_is_last_fragment+as_u8 props=C08 kind=complete pair=
+// RFC 791 3.1: TOS = PPP D T R 0 0 (precedence in bits 7..5, D bit 4, T bit 3, R bit 2); flags = 0 DF MF (DF value 2, MF value 1).
+// The typed constructors, the accessors and the raw byte agree with that layout for every value.
+#[cfg_attr(kani, kani::proof)]
+#[cfg_attr(vx_replay, test)]
+fn h_ipv4_tos_and_flags_bits() {
+    let (p, d, t, r): (u8, u8, u8, u8) = (any(), any(), any(), any());
+    vx_assume!(p < 8 && d < 2 && t < 2 && r < 2);
+    let tos = TypeOfService::new(Precedence::try_from(p).unwrap(), Delay::try_from(d).unwrap(), Throughput::try_from(t).unwrap(), Reliability::try_from(r).unwrap());
+    assert_eq!(tos.as_u8(), (p << 5) | (d << 4) | (t << 3) | (r << 2));
+    assert!(tos.precedence() as u8 == p && tos.delay() as u8 == d && tos.throughput() as u8 == t && tos.reliability() as u8 == r);
+    // accessors on an arbitrary received byte (the two low bits are reserved and ignored)
+    let b: u8 = any();
+    let any_tos = TypeOfService::from(b);
+    assert!(any_tos.as_u8() == b);
+    assert!(any_tos.precedence() as u8 == b >> 5 && any_tos.delay() as u8 == (b >> 4) & 1 && any_tos.throughput() as u8 == (b >> 3) & 1 && any_tos.reliability() as u8 == (b >> 2) & 1);
+    // flags
+    let (mf, last): (bool, bool) = (any(), any());
+    let mut f = ControlFlags::new(mf, last);
+    assert_eq!(f.as_u8(), ((!mf as u8) << 1) | (!last as u8));
+    assert!(f.may_fragment() == mf && f.is_last_fragment() == last);
+    let (v, w): (bool, bool) = (any(), any());
+    f.set_may_fragment(v);
+    assert!(f.may_fragment() == v && f.is_last_fragment() == last && f.as_u8() == (((!v) as u8) << 1) | (!last as u8));
+    f.set_is_last_fragment(w);
+    assert!(f.may_fragment() == v && f.is_last_fragment() == w && f.as_u8() == (((!v) as u8) << 1) | (!w as u8));
+}
